@@ -474,6 +474,13 @@ def summary(T, name, entry=None):
         for e in one:
             if e[0] == "define":
                 s["value"] = e[2]
+    top_defs = [e for e in ev if e[0] == "define"]
+    if top_defs and not cc:
+        # the arm hands its text to define() whatever the use count: written where (and if) the destination is expanded
+        s["dest"] = top_defs[0][1]
+        s["inlinable"] = True
+        s["droppable"] = True
+        s["value"] = top_defs[0][2]
     gc = [e for e in ev if e[0] == "if-count>0"]
     if gc and not cc:
         s["guard"] = gc[0][1]
